@@ -392,17 +392,14 @@ func (ei *resourceInformer) handleWatchEvent(object interface{}, eventType kemty
 
 		verifpoint.Hit("informer.w1")
 
-		// fix race with enableKubeEventCb.
-		eventCbEnabled := false
+		// fix race with enableKubeEventCb: check the flag and save the event
+		// in one critical section.
 		ei.eventBufLock.Lock()
-		eventCbEnabled = ei.eventCbEnabled
-		ei.eventBufLock.Unlock()
-
-		if eventCbEnabled {
+		if ei.eventCbEnabled {
+			ei.eventBufLock.Unlock()
 			// Pass event info to callback.
 			ei.putEvent(kubeEvent)
 		} else {
-			ei.eventBufLock.Lock()
 			// Save event in buffer until the callback is enabled.
 			if ei.eventBuf == nil {
 				ei.eventBuf = make([]kemtypes.KubeEvent, 0)
